@@ -3,16 +3,25 @@
 
 Regenerates, from the working tree of rs/anda_kip, the data-like parts of the C15 model:
 
-  parser.rs          MAX_KIP_INPUT_LEN, MAX_KIP_NESTING_DEPTH (constant expressions are evaluated),
-                     the bracket tables of `validate_parser_budget` (which characters are pushed,
-                     which closer pops which opener), the comment / string / escape characters the
-                     pre-scan keys on, and the order of the three families in `parse_kip`'s `alt`;
-  parser/json.rs     the comment introducer and terminator of `skip_ws_and_comments`;
-  parser/common.rs   the extra characters of `word_boundary`;
+  parser.rs          MAX_KIP_INPUT_LEN, MAX_KIP_NESTING_DEPTH (constant expressions are evaluated); that each
+                     of the five parse_* entry points starts with `validate_parser_budget(..)?;`; from
+                     validate_parser_budget TOGETHER WITH every function of the file it transitively calls:
+                     the relation under which it refuses (`len > MAX`, also when spelled as the inverted
+                     `len <= MAX => Ok`), that it iterates `.chars()`, pushes, looks at `.last()` and pops,
+                     and the sorted set of character literals it keys on; the order of the three
+                     families in `parse_kip`'s `alt`;
+  parser/json.rs     skip_ws_and_comments (+ helpers): comment introducer / terminator, whitespace class;
+  parser/common.rs   the extra characters of `word_boundary` (sorted set), that `word` / `words` are
+                     tag_no_case + word_boundary (+ trivia1), the whitespace class of `trivia1`;
   parser/{kql,kml,meta}.rs
                      the head keyword of every top-level alternative of the three families
                      (first `word("X")` / `words(&["X", ..])` of each function named in the family's
                      top-level `alt`, plus `MUTATE` and the verbs passed to `removal`).
+
+Facts are about what is called and which characters / constants are used, never about the names of
+locals or the spelling of a branch (match vs if-chain, matches! vs ==, loop vs try_for_each, code moved
+into private helpers): which closer pops which opener and the string / escape / comment state machine are
+tied by the correspondence harness instead (bracket soup, corpus 03-04c, 19e-19f).
 
 Strict about meaning, tolerant about layout: works on a comment-stripped copy, keys on names and
 nesting; a marker that is missing, duplicated or ambiguous is an error (exit 1, one line on stderr).
@@ -123,6 +132,34 @@ def fn_body(src, name, path):
     die(f"{path}: unbalanced braces in fn {name}")
 
 
+def fn_names(src):
+    return set(re.findall(r"\bfn\s+([A-Za-z_]\w*)\b", src))
+
+
+def call_closure(src, name, path):
+    """Bodies of `fn name` and of every function of the same file it transitively calls
+    (`foo(..)`, `self.foo(..)`, `Self::foo(..)`, `x.foo(..)`), concatenated: a scan of the result sees
+    the same calls, constants and character literals whether or not blocks were moved into helpers."""
+    names = fn_names(src)
+    seen, todo, parts = [], [name], []
+    while todo:
+        f = todo.pop(0)
+        if f in seen:
+            continue
+        seen.append(f)
+        ms = list(re.finditer(r"\bfn\s+" + re.escape(f) + r"\b", src))
+        if len(ms) != 1:
+            if f == name:
+                die(f"{path}: expected exactly one `fn {name}`, found {len(ms)}")
+            continue  # overloaded helper name (two impls): not followed
+        body = fn_body(src, f, path)
+        parts.append(body)
+        for callee in re.findall(r"\b([A-Za-z_]\w*)\s*(?:::<[^>()]*>)?\(", body):
+            if callee in names and callee not in seen:
+                todo.append(callee)
+    return "\n".join(parts)
+
+
 def const_expr(src, name, path):
     ms = re.findall(r"\bconst\s+" + name + r"\s*:\s*usize\s*=\s*([^;]+);", src)
     if len(ms) != 1:
@@ -222,53 +259,65 @@ def main():
     max_len = const_expr(parser, "MAX_KIP_INPUT_LEN", "parser.rs")
     max_depth = const_expr(parser, "MAX_KIP_NESTING_DEPTH", "parser.rs")
 
-    # every parse_* entry point calls the budget first
+    # every parse_* entry point calls the budget first (whatever the parameter is called, whatever follows)
     entry_points = []
     for ep in ["parse_kip", "parse_kql", "parse_kml", "parse_meta", "parse_json"]:
         b = fn_body(parser, ep, "parser.rs")
-        stmts = b.strip()
-        if not re.match(r"validate_parser_budget\s*\(\s*input\s*\)\s*\?\s*;", stmts):
-            die(f"parser.rs: `{ep}` does not start with `validate_parser_budget(input)?;`")
+        if not re.match(r"\s*validate_parser_budget\s*\(\s*\w+\s*\)\s*\?\s*;", b):
+            die(f"parser.rs: `{ep}` does not start with `validate_parser_budget(<input>)?;`")
         entry_points.append(ep)
 
     # ---- the pre-scan -----------------------------------------------------------------------
-    vb = fn_body(parser, "validate_parser_budget", "parser.rs")
+    # Facts are taken from validate_parser_budget together with every function of the same file it
+    # (transitively) calls, so extracting blocks into private helpers / methods changes nothing, and
+    # they are about WHAT IS CALLED and WHICH CHARACTERS ARE KEYED ON, not about how a branch is spelled
+    # (match / if-else chain / matches! / ==). The pairing of closers with openers and the state
+    # machine itself are tied by the correspondence harness (bracket soup, corpus 03-04c, 19e-19f).
+    vb = call_closure(parser, "validate_parser_budget", "parser.rs")
     flat = re.sub(r"\s+", " ", vb)
-    if not re.search(r"input\s*\.\s*len\s*\(\s*\)\s*>\s*MAX_KIP_INPUT_LEN", flat):
-        die("parser.rs: validate_parser_budget: length test `input.len() > MAX_KIP_INPUT_LEN` not found")
-    if not re.search(r"for\s+\w+\s+in\s+input\s*\.\s*chars\s*\(\s*\)", flat):
-        die("parser.rs: validate_parser_budget: does not iterate `input.chars()`")
-    # the stack is whatever local is pushed to (names of locals are not part of the meaning)
-    m = re.findall(r"((?:" + CHAR + r"\s*\|\s*)*" + CHAR + r")\s*=>\s*\{\s*(\w+)\s*\.\s*push\s*\(", flat)
-    if len(m) != 1:
-        die(f"parser.rs: validate_parser_budget: expected one push arm, found {len(m)}")
-    openers = [unchar(x.group(0)) for x in re.finditer(CHAR, m[0][0])]
-    stk = m[0][-1]
-    if not re.search(stk + r"\s*\.\s*len\s*\(\s*\)\s*>\s*MAX_KIP_NESTING_DEPTH", flat):
-        die("parser.rs: validate_parser_budget: depth test `<stack>.len() > MAX_KIP_NESTING_DEPTH` not found")
-    closers = re.findall(
-        r"(" + CHAR + r")\s*=>\s*\{\s*if\s+matches!\s*\(\s*" + stk + r"\s*\.\s*last\s*\(\s*\)\s*,\s*Some\s*\(\s*(" + CHAR
-        + r")\s*\)\s*\)\s*\{\s*" + stk + r"\s*\.\s*pop\s*\(\s*\)\s*;\s*\}\s*\}", flat)
-    pairs = [(unchar(c[0]), unchar(c[2])) for c in closers]
-    if not pairs:
-        die("parser.rs: validate_parser_budget: no `closer => if matches!(<stack>.last(), Some(opener)) pop` arm found")
-    if len(set(p[0] for p in pairs)) != len(pairs):
-        die("parser.rs: validate_parser_budget: a closer has two arms")
-    if len(re.findall(stk + r"\s*\.\s*pop\b", flat)) != len(pairs) or len(re.findall(stk + r"\s*\.\s*push\b", flat)) != 1:
-        die("parser.rs: validate_parser_budget: push/pop sites do not match the recognised arms")
-    pairs.sort(key=lambda p: p[0])  # the order of the arms carries no meaning
-    if not re.search(r"if\s+(\w+)\s*\{\s*if\s+\w+\s*==\s*'\\n'\s*\{\s*\1\s*=\s*false", flat):
-        die("parser.rs: validate_parser_budget: line-comment exit on '\\n' not found")
-    if not re.search(r"'\\\\'\s*=>\s*\w+\s*=\s*true", flat):
-        die("parser.rs: validate_parser_budget: escape arm `'\\\\' => <escaped> = true` not found")
-    ms = re.search(r"'\"'\s*=>\s*(\w+)\s*=\s*false", flat)
-    if not ms or not re.search(r"'\"'\s*=>\s*" + ms.group(1) + r"\s*=\s*true", flat):
-        die("parser.rs: validate_parser_budget: string open/close arms not found")
-    if not re.search(r"if\s+\w+\s*==\s*'/'\s*\{\s*if\s+(\w+)\s*\{\s*\w+\s*=\s*true\s*;\s*\1\s*=\s*false", flat):
-        die("parser.rs: validate_parser_budget: `//` detection not found")
+
+    def refused_when(const, what):
+        """`x.len() OP CONST` guarding the refusal: returns the relation under which the input is refused."""
+        ms = list(re.finditer(r"\.\s*len\s*\(\s*\)\s*(>=|<=|>|<)\s*" + const + r"\b", flat))
+        if len(ms) != 1:
+            die(f"parser.rs: validate_parser_budget: expected exactly one `.len() <op> {const}` ({what}), found {len(ms)}")
+        op = ms[0].group(1)
+        i = flat.find("{", ms[0].end())
+        if i < 0 or flat[ms[0].end():i].strip() != "":
+            die(f"parser.rs: validate_parser_budget: the {what} comparison does not guard a block")
+        depth, j = 0, i
+        while j < len(flat):
+            if flat[j] == "{":
+                depth += 1
+            elif flat[j] == "}":
+                depth -= 1
+                if depth == 0:
+                    break
+            j += 1
+        block = flat[i:j + 1]
+        errs = bool(re.search(r"\bErr\s*\(|resource_exhausted", block))
+        oks = bool(re.search(r"\bOk\s*\(", block))
+        if errs == oks:
+            die(f"parser.rs: validate_parser_budget: cannot tell whether the {what} guard refuses or accepts")
+        if errs:       # `if len OP C { refuse }`
+            return op
+        # `if len OP C { accept }` : refused under the negation
+        return {"<=": ">", "<": ">=", ">": "<=", ">=": "<"}[op]
+
+    len_rel = refused_when("MAX_KIP_INPUT_LEN", "length")
+    depth_rel = refused_when("MAX_KIP_NESTING_DEPTH", "depth")
+    for call, why in [(r"\.\s*chars\s*\(\s*\)", "does not iterate `.chars()`"),
+                      (r"\.\s*push\s*\(", "never pushes an opener"),
+                      (r"\.\s*pop\s*\(\s*\)", "never pops"),
+                      (r"\.\s*last\s*\(\s*\)", "never looks at the innermost open bracket before popping")]:
+        if not re.search(call, flat):
+            die(f"parser.rs: validate_parser_budget: {why}")
+    if re.search(r"\.\s*bytes\s*\(\s*\)|char_indices", flat):
+        die("parser.rs: validate_parser_budget: iterates something else than `.chars()`")
+    budget_chars = sorted(set(unchar(x.group(0)) for x in re.finditer(CHAR, vb)))
 
     # ---- skip_ws_and_comments ---------------------------------------------------------------
-    sk = re.sub(r"\s+", " ", fn_body(json_rs, "skip_ws_and_comments", "parser/json.rs"))
+    sk = re.sub(r"\s+", " ", call_closure(json_rs, "skip_ws_and_comments", "parser/json.rs"))
     m = re.findall(r'starts_with\s*\(\s*"([^"]*)"\s*\)', sk)
     if len(m) != 1:
         die("parser/json.rs: skip_ws_and_comments: expected one starts_with(\"..\")")
@@ -277,27 +326,30 @@ def main():
     if len(m) != 1:
         die("parser/json.rs: skip_ws_and_comments: expected one find('..')")
     comment_end = unchar(m[0][0])
-    if not re.search(r"trim_start_matches\s*\(\s*\|\s*\w+\s*:\s*char\s*\|\s*\w+\s*\.\s*is_whitespace\s*\(\s*\)\s*\)", sk):
+    m = re.search(r"trim_start_matches\s*\(([^;]*?)\)\s*[;)]", sk)
+    if not m or "is_whitespace" not in m.group(1) or re.search(r"is_ascii_whitespace|multispace", sk):
         die("parser/json.rs: skip_ws_and_comments: whitespace is no longer `char::is_whitespace`")
 
     # ---- word_boundary ----------------------------------------------------------------------
-    wb = re.sub(r"\s+", " ", fn_body(common, "word_boundary", "parser/common.rs"))
-    m = re.search(r"is_alphanumeric\s*\(\s*\)\s*\|\|\s*matches!\s*\(\s*\w+\s*,\s*((?:" + CHAR + r"\s*\|\s*)*" + CHAR + r")\s*\)", wb)
-    if not m or not re.search(r"\bnot\s*\(\s*verify\s*\(\s*anychar", wb):
-        die("parser/common.rs: word_boundary: `not(verify(anychar, |c| c.is_alphanumeric() || matches!(c, ..)))` not found")
-    boundary_extra = [unchar(x.group(0)) for x in re.finditer(CHAR, m.group(1))]
+    wbody = fn_body(common, "word_boundary", "parser/common.rs")
+    wb = re.sub(r"\s+", " ", wbody)
+    if not re.search(r"\bnot\s*\(", wb) or "anychar" not in wb or not re.search(r"\.\s*is_alphanumeric\s*\(\s*\)", wb):
+        die("parser/common.rs: word_boundary: is no longer `not(<next char is alphanumeric or one of ..>)`")
+    if re.search(r"is_ascii_alphanumeric", wb):
+        die("parser/common.rs: word_boundary: alphanumeric class changed")
+    boundary_extra = sorted(set(unchar(x.group(0)) for x in re.finditer(CHAR, wbody)))
     wd = re.sub(r"\s+", " ", fn_body(common, "word", "parser/common.rs"))
-    if not re.search(r"terminated\s*\(\s*tag_no_case\s*\(\s*w\s*\)\s*,\s*word_boundary\s*\(\s*\)\s*\)", wd):
-        die("parser/common.rs: word: is no longer `terminated(tag_no_case(w), word_boundary())`")
+    if not re.search(r"\btag_no_case\s*\(", wd) or not re.search(r"\bword_boundary\s*\(\s*\)", wd):
+        die("parser/common.rs: word: is no longer tag_no_case followed by word_boundary")
 
     # ---- trivia1 (between the words of a multi-word keyword) ---------------------------------
     t1 = re.sub(r"\s+", " ", fn_body(common, "trivia1", "parser/common.rs"))
-    if re.search(r"take_while1\s*\(\s*\|\s*(\w+)\s*:\s*char\s*\|\s*\1\s*\.\s*is_whitespace\s*\(\s*\)\s*\)", t1) and "multispace" not in t1:
+    if re.search(r"take_while1\s*\(([^;]*?is_whitespace[^;]*?)\)", t1) and not re.search(r"multispace|is_ascii_whitespace", t1):
         trivia1_ws = "char::is_whitespace"
     elif re.search(r"\bmultispace1\b", t1):
         trivia1_ws = "multispace1"
     else:
-        die("parser/common.rs: trivia1: whitespace class not recognised (expected take_while1(|c: char| c.is_whitespace()))")
+        die("parser/common.rs: trivia1: whitespace class not recognised (expected take_while1 over char::is_whitespace)")
     if not re.search(r'peek\s*\(\s*tag\s*\(\s*"//"\s*\)\s*\)', t1) or not re.search(r"skip_ws_and_comments\s*\(\s*\w+\s*\)", t1):
         die("parser/common.rs: trivia1: is no longer `alt((whitespace1, peek(tag(\"//\")))) then skip_ws_and_comments`")
     wds = re.sub(r"\s+", " ", fn_body(common, "words", "parser/common.rs"))
@@ -375,14 +427,15 @@ def main():
     out.append(f"def maxKipNestingDepth : Nat := {max_depth}")
     out.append("/-- entry points that start with `validate_parser_budget(input)?;` -/")
     out.append("def budgetedEntryPoints : List String := [" + ", ".join(f'"{e}"' for e in entry_points) + "]")
-    out.append("/-- characters `validate_parser_budget` pushes -/")
-    out.append(f"def openers : List Char := {lean_chars(openers)}")
-    out.append("/-- `(closer, opener)` arms of `validate_parser_budget`: the closer pops only that opener -/")
-    out.append("def closerPairs : List (Char × Char) := [" + ", ".join(f"({lean_char(a)}, {lean_char(b)})" for a, b in pairs) + "]")
+    out.append("/-- every character literal `validate_parser_budget` (with its private helpers) keys on, sorted -/")
+    out.append(f"def budgetChars : List Char := {lean_chars(budget_chars)}")
+    out.append("/-- the input is refused when `len <rel> MAX_KIP_INPUT_LEN` / `stack.len() <rel> MAX_KIP_NESTING_DEPTH` -/")
+    out.append(f'def lengthRefusedWhen : String := "{len_rel}"')
+    out.append(f'def depthRefusedWhen : String := "{depth_rel}"')
     out.append("/-- comment introducer / terminator of `skip_ws_and_comments` -/")
     out.append(f"def commentIntro : List Char := {lean_chars(comment_intro)}")
     out.append(f"def commentEnd : Char := {lean_char(comment_end)}")
-    out.append("/-- non-alphanumeric characters that still glue to a keyword (`word_boundary`) -/")
+    out.append("/-- non-alphanumeric characters that still glue to a keyword (`word_boundary`), sorted -/")
     out.append(f"def boundaryExtra : List Char := {lean_chars(boundary_extra)}")
     out.append("/-- whitespace class `trivia1` requires between the words of a multi-word keyword -/")
     out.append(f'def trivia1Whitespace : String := "{trivia1_ws}"')
